@@ -217,8 +217,19 @@ func VerifC04Mapping() {
 		base = c04Doc("healthcheck", map[string]any{"interval": "1s", "retries": 2, "start_period": "3s"})
 		over = c04Over("healthcheck", map[string]any{"retries": 5, "timeout": "9s"})
 	case 2:
-		base = c04Doc("logging", map[string]any{"driver": "d", "options": map[string]any{"a": v1, "b": v3}})
-		over = c04Over("logging", map[string]any{"driver": "d", "options": map[string]any{"a": v2, "c": "z"}})
+		// options merge when both sides name the same driver or one of them names none
+		bl := map[string]any{"options": map[string]any{"a": v1, "b": v3}}
+		ol := map[string]any{"options": map[string]any{"a": v2, "c": "z"}}
+		switch vrtChoice("drivers", 3) {
+		case 0:
+			bl["driver"], ol["driver"] = "d", "d"
+		case 1:
+			ol["driver"] = "d" // base names none
+		case 2:
+			bl["driver"] = "d" // override names none
+		}
+		base = c04Doc("logging", bl)
+		over = c04Over("logging", ol)
 	}
 	m, err := tcLoad(nil, nil, base, over)
 	vrtAssert("loads", err == nil)
